@@ -732,7 +732,9 @@ func parseLayers(j judge, tier string) []Layer {
 			},
 		})
 		// exponent extremes
-		bigExps := []string{"2147483646", "2147483647", "2147483648", "2147483649", "-2147483647", "-2147483648", "-2147483649", "-2147483650", "9223372036854775807", "9223372036854775808", "-9223372036854775808", "-9223372036854775809", "99999999999999999999999999999999999999", "-99999999999999999999999999999999999999", "0000000000000000000000000000000000000005", "2_147_483_647", "21474836_46"}
+		bigExps := []string{"2147483646", "2147483647", "2147483648", "2147483649", "-2147483647", "-2147483648", "-2147483649", "-2147483650", "9223372036854775807", "9223372036854775808", "-9223372036854775808", "-9223372036854775809", "99999999999999999999999999999999999999", "-99999999999999999999999999999999999999", "0000000000000000000000000000000000000005", "2_147_483_647", "21474836_46",
+			// exponents that are small again modulo 2^32 / 2^64
+			"4294967297", "-4294967297", "4294967296", "18446744073709551616", "18446744073709551617", "-18446744073709551617", "36893488147419103235", "18446744073709551620", "340282366920938463463374607431768211457"}
 		mants := []string{"1", "9", "0.1", "0.09", "10", "99.9", "0.0001", "100000", "0", "0.0", "9.99", "123456789012345678901234567890"}
 		layers = append(layers, Layer{
 			Name:   "B2-exponent-extremes",
@@ -818,6 +820,36 @@ func parseLayers(j judge, tier string) []Layer {
 										parseCase(c, j, s, 10, p, m, false)
 									}
 								}
+							}
+						}
+					}
+				}
+			},
+		})
+	}
+	// B6: integers at the binary boundaries of the machine types (a conversion that goes through
+	// uint32/uint64/int64 arithmetic wraps exactly there), through every entry point
+	{
+		ks := []uint{7, 8, 15, 16, 24, 31, 32, 33, 53, 62, 63, 64, 65, 96, 127, 128}
+		layers = append(layers, Layer{
+			Name:   "B6-binary-boundary-integers",
+			Units:  len(ks),
+			Bounds: fmt.Sprintf("decimal literals 2^k + d for k in %v, d in -3..9, also 10·(2^k/10)+d … (last digit swept), with sign, \".0\", \"e0\", \"e-1\", leading zeros; precision {0,5,25,40} × modes Even/ToZero/AwayFromZero; Parse (bases 0 and 10) and every other entry point (SetString, UnmarshalText, JSON, Scan, ParseDecimal) into fresh / inexact / dirty receivers", ks),
+			Run: func(c *Ctx, u int) {
+				b := new(big.Int).Lsh(big1, ks[u])
+				for d := int64(-3); d <= 9; d++ {
+					n := new(big.Int).Add(b, big.NewInt(d)).String()
+					for _, s := range []string{n, "-" + n, "+" + n, n + ".0", n + "e0", n + "e-1", "00" + n, n[:len(n)-1] + "." + n[len(n)-1:]} {
+						if c.Done() {
+							return
+						}
+						for _, p := range []uint32{0, 5, 25, 40} {
+							for _, m := range []uint8{ToNearestEven, ToZero, AwayFromZero} {
+								parseCase(c, j, s, 0, p, m, false)
+								parseCase(c, j, s, 10, p, m, false)
+							}
+							if j == judgeValue {
+								otherEntryPoints(c, s, p, ToNearestEven, false)
 							}
 						}
 					}
@@ -1037,6 +1069,70 @@ func parseLayers(j judge, tier string) []Layer {
 							if msg := Canonical(Observe(z)); msg != "" {
 								c.Fail(key, "receiver malformed: "+msg)
 							}
+						}
+					}
+				},
+			})
+		}
+		// C6: white space and several operands: fmt hands the Scanner the input with leading space still in
+		// place, and the second operand of Sscan starts at the blank after the first
+		{
+			texts := []string{"1.5", "-2.25", "0x10", "1e3", "+Inf", "7", "0b101", "1_000.5"}
+			seps := []string{" ", "  ", "\t", "\n", " \t ", "\r\n"}
+			layers = append(layers, Layer{
+				Name:   "C6-scan-white-space-and-several-operands",
+				Units:  len(texts),
+				Bounds: fmt.Sprintf("fmt.Sscan / Sscanln / Fscan of two and three operands taken from %d texts (all ordered pairs, separators %q), and of one operand behind leading white space / followed by trailing white space: item count, error and values identical to the same call with *big.Float operands", len(texts), seps),
+				Run: func(c *Ctx, u int) {
+					a := texts[u]
+					cmp := func(key string, run func(args ...interface{}) (int, error)) {
+						if c.Skip() {
+							return
+						}
+						c.NonTrivial()
+						zs := []*Dec{fresh(40, ToNearestEven), buildPre(preInexact, 40, ToNearestEven), fresh(40, ToNearestEven)}
+						fs := []*big.Float{new(big.Float).SetPrec(200), new(big.Float).SetPrec(200), new(big.Float).SetPrec(200)}
+						var n1, n2 int
+						var e1, e2 error
+						pv, _ := protect(func() { n1, e1 = run(zs[0], zs[1], zs[2]) })
+						n2, e2 = run(fs[0], fs[1], fs[2])
+						if pv != nil {
+							c.Fail(key, fmt.Sprintf("panic: %v", pv))
+							return
+						}
+						if (e1 == nil) != (e2 == nil) || n1 != n2 {
+							c.Fail(key, fmt.Sprintf("Decimal: n=%d err=%v; big.Float: n=%d err=%v", n1, e1, n2, e2))
+							return
+						}
+						for i := 0; i < n1 && i < 3; i++ {
+							ex := exactOfBigFloat(fs[i])
+							if o := Observe(zs[i]); o.Form != ex.Form || o.Neg != ex.Neg || (o.Form == fFinite && !o.Val().Equal(ex)) {
+								c.Fail(key, fmt.Sprintf("operand %d: Decimal scanned %s, big.Float scanned %s", i, o.Val(), ex))
+							}
+						}
+						for i := range zs {
+							if msg := Canonical(Observe(zs[i])); msg != "" {
+								c.Fail(key, "receiver malformed: "+msg)
+							}
+						}
+					}
+					for _, sp := range seps {
+						in1 := sp + a
+						cmp(fmt.Sprintf("Sscan(%q, one operand)", in1), func(args ...interface{}) (int, error) { return fmt.Sscan(in1, args[0]) })
+						in2 := a + sp
+						cmp(fmt.Sprintf("Sscan(%q, one operand)", in2), func(args ...interface{}) (int, error) { return fmt.Sscan(in2, args[0]) })
+						cmp(fmt.Sprintf("Sscanln(%q, one operand)", in1), func(args ...interface{}) (int, error) { return fmt.Sscanln(in1, args[0]) })
+						for _, b := range texts {
+							in := a + sp + b
+							cmp(fmt.Sprintf("Sscan(%q, two operands)", in), func(args ...interface{}) (int, error) { return fmt.Sscan(in, args[0], args[1]) })
+							cmp(fmt.Sprintf("Sscanln(%q, two operands)", in), func(args ...interface{}) (int, error) { return fmt.Sscanln(in, args[0], args[1]) })
+							cmp(fmt.Sprintf("Fscan(%q, two operands)", in), func(args ...interface{}) (int, error) {
+								return fmt.Fscan(strings.NewReader(in), args[0], args[1])
+							})
+							in3 := sp + a + sp + b + " " + a
+							cmp(fmt.Sprintf("Sscan(%q, three operands)", in3), func(args ...interface{}) (int, error) { return fmt.Sscan(in3, args[0], args[1], args[2]) })
+							inf := a + " " + b
+							cmp(fmt.Sprintf("Sscanf(%q, \"%%v %%v\")", inf), func(args ...interface{}) (int, error) { return fmt.Sscanf(inf, "%v %v", args[0], args[1]) })
 						}
 					}
 				},
